@@ -97,6 +97,10 @@ def case(spec):
     pick = pool[:spec.get("count", 120)]
     # always include the historically fatal shapes
     pick += [("hostile:many-pushes", b"\x51" + b"\x01\x02" * 256 + b"\x60\xae"), ("hostile:many-pushes", b"\x51" + b"\x01\x02" * 257 + b"\x51\xae")]
+    # field lengths on both sides of every CompactSize width change (the length prefix is re-serialised for the txid)
+    for ln in (252, 253, 254, 255, 256, 0xfffe, 0xffff, 0x10000, 0x10001):
+        body = rbytes(rng, ln - 1)
+        pick.append(("hostile:len-boundary", bytes([rng.choice([0x6a, 0x00, 0x51, 0x76, 0xff])]) + body))
     cb = gen.ChainBuilder(rng, coin)
     it = iter(pick)
     fams = set()
